@@ -731,4 +731,61 @@ theorem mem_pick {β : Type} (xs : List β) (ids : List Nat) (x : β) (h : x ∈
   exact List.mem_of_getElem? hi
 
 
+/-! ## `torch.min(dim)` returns a nearest entry — for every spacing of the stamps (hardening kind 18) -/
+
+theorem argminFrom_spec (xs : List ℝ) (j0 : Nat) (b : ℝ) (jb : Nat) :
+    (argminFrom xs j0 (b, jb)).1 ≤ b ∧ (∀ x ∈ xs, (argminFrom xs j0 (b, jb)).1 ≤ x) ∧
+    ((argminFrom xs j0 (b, jb) = (b, jb)) ∨
+     (∃ i, i < xs.length ∧ (argminFrom xs j0 (b, jb)).2 = j0 + i ∧ xs[i]? = some (argminFrom xs j0 (b, jb)).1)) := by
+  induction xs generalizing j0 b jb with
+  | nil => simp [argminFrom]
+  | cons x xs ih =>
+    unfold argminFrom
+    by_cases hx : x < b
+    · simp only [lt_real, hx, decide_true, if_true]
+      obtain ⟨h1, h2, h3⟩ := ih (j0 + 1) x j0
+      refine ⟨le_trans h1 hx.le, ?_, ?_⟩
+      · intro y hy
+        rcases List.mem_cons.mp hy with rfl | hy
+        · exact h1
+        · exact h2 y hy
+      · right
+        rcases h3 with h3 | ⟨i, hi, hj, hv⟩
+        · exact ⟨0, by simp, by rw [h3]; rfl, by rw [h3]; simp⟩
+        · exact ⟨i + 1, by simp; omega, by rw [hj]; omega, by simpa using hv⟩
+    · simp only [lt_real, hx, decide_false, Bool.false_eq_true, if_false]
+      obtain ⟨h1, h2, h3⟩ := ih (j0 + 1) b jb
+      refine ⟨h1, ?_, ?_⟩
+      · intro y hy
+        rcases List.mem_cons.mp hy with rfl | hy
+        · exact le_trans h1 (not_lt.mp hx)
+        · exact h2 y hy
+      · rcases h3 with h3 | ⟨i, hi, hj, hv⟩
+        · exact Or.inl h3
+        · exact Or.inr ⟨i + 1, by simp; omega, by rw [hj]; omega, by simpa using hv⟩
+
+/-- `argmin?` returns a position `j` inside the row, the value there, and that value is ≤ every entry of the row -/
+theorem argmin?_spec (l : List ℝ) (v : ℝ) (j : Nat) (h : argmin? l = some (v, j)) :
+    j < l.length ∧ l[j]? = some v ∧ ∀ x ∈ l, v ≤ x := by
+  cases l with
+  | nil => simp [argmin?] at h
+  | cons x xs =>
+    simp only [argmin?, Option.some.injEq] at h
+    obtain ⟨h1, h2, h3⟩ := argminFrom_spec xs 1 x 0
+    rw [h] at h1 h2 h3
+    simp only at h1 h2 h3
+    refine ⟨?_, ?_, ?_⟩
+    · rcases h3 with h3 | ⟨i, hi, hj, _⟩
+      · have : j = 0 := (Prod.mk.injEq _ _ _ _ ▸ h3).2
+        simp [this]
+      · simp; omega
+    · rcases h3 with h3 | ⟨i, hi, hj, hv⟩
+      · have hh := (Prod.mk.injEq _ _ _ _ ▸ h3)
+        rw [hh.2, hh.1]; simp
+      · rw [hj, Nat.add_comm]; simpa using hv
+    · intro y hy
+      rcases List.mem_cons.mp hy with rfl | hy
+      · exact h1
+      · exact h2 y hy
+
 end PP.Traj
